@@ -64,6 +64,34 @@ def is_const(x):
     return z3.is_int_value(x)
 
 
+# ---- known-zero bits: a sound syntactic over-approximation of the bits of a word that can be 1 -------------------------
+# It lets `or` of provably bit-disjoint operands become `+`, and `and` with a constant become the removal of single bits,
+# which keeps the bool-array code (pack/unpack of bits) inside linear integer arithmetic.  z3 terms are hash-consed, so
+# the term id identifies the term; the term is kept alive next to its mask.
+MAYBITS = {}
+
+
+def set_maybits(t, mask):
+    MAYBITS[t.get_id()] = (t, mask)
+    return t
+
+
+def maybits(t, full):
+    ts = z3.simplify(t)
+    if z3.is_int_value(ts):
+        v = ts.as_long()
+        return v if 0 <= v <= full else full
+    for x in (t, ts):
+        e = MAYBITS.get(x.get_id())
+        if e is not None:
+            return e[1] & full
+    return full
+
+
+def _bit(a, j):
+    return (a / (1 << j)) % 2
+
+
 def arith(op, a, b, w, interpret=frozenset()):
     """result word of `op [d], a, b`; a, b are integers (not necessarily reduced when op is a ring operation)"""
     m = M(w); bits = 8 * w
@@ -75,27 +103,46 @@ def arith(op, a, b, w, interpret=frozenset()):
         if 'mul' in interpret:
             return wrap(sx(wrap(a, m), m) * sx(wrap(b, m), m), m)
         return wrap(uf('mul')(wrap(a, m), wrap(b, m)), m)
-    a = wrap(a, m) if not _reduced(a, m) else a
-    b = wrap(b, m) if not _reduced(b, m) else b
+    # from here on a and b are words in [0, M) (the engine and the reference semantics only hand reduced words to the
+    # non-ring operations); constants are normalised
+    if is_const(z3.simplify(a)): a = z3.IntVal(z3.simplify(a).as_long() % m)
+    if is_const(z3.simplify(b)): b = z3.IntVal(z3.simplify(b).as_long() % m)
     if op in ('div', 'mod'):
         if op in interpret or is_const(z3.simplify(b)):
             sa, sb = sx(a, m), sx(b, m)
             return wrap(floor_div(sa, sb) if op == 'div' else floor_mod(sa, sb), m)
         return wrap(uf(op)(a, b), m)
     if op in ('and', 'or', 'xor'):
-        bs = z3.simplify(b)
+        full = m - 1
+        as_, bs = z3.simplify(a), z3.simplify(b)
+        if is_const(as_) and not is_const(bs):
+            a, b, as_, bs = b, a, bs, as_          # commutative: constant on the right
+        ma, mb = maybits(a, full), maybits(b, full)
         if op == 'and' and is_const(bs):
             k = bs.as_long()
             if k & (k + 1) == 0:                  # mask 2**j - 1
-                return a % (k + 1)
+                return set_maybits(a % (k + 1), ma & k)
+            drop = [j for j in range(bits) if (ma >> j) & 1 and not (k >> j) & 1]
+            if len(drop) <= 8:                    # remove the bits of a that the constant clears
+                r = a
+                for j in drop:
+                    r = r - _bit(a, j) * (1 << j)
+                return set_maybits(r, ma & k)
         if op == 'xor' and is_const(bs) and bs.as_long() == m - 1:
             return (m - 1) - a                    # complement
+        if op in ('or', 'xor') and (ma & mb) == 0:
+            return set_maybits(a + b, ma | mb)    # bit-disjoint operands
         return bitwise(op, a, b, bits)
     if op == 'asl':
         bs = z3.simplify(b)
         if is_const(bs):
             k = bs.as_long()
-            return wrap(a * (1 << k), m) if k < bits else z3.IntVal(0)
+            if k >= bits:
+                return z3.IntVal(0)
+            ma = maybits(a, m - 1)
+            if (ma << k) < m:
+                return set_maybits(a * (1 << k), ma << k)      # no bit is shifted out
+            return wrap(a * (1 << k), m)
         return z3.If(b < bits, wrap(a * pow2(b, min(bits, 16)), m), z3.IntVal(0)) if bits <= 16 else \
             z3.If(b < 16, wrap(a * pow2(b, 16), m), wrap(uf('asl')(a, b), m))
     if op == 'asr':
